@@ -79,6 +79,7 @@ func checkC12(c *core.Ctx) {
 	r2 := c.Rule("R12.2", "T", "Stream callbacks only under the connection lock")
 	r3 := c.Rule("R12.3", "T", "lockset of StreamPool.conns/free and of connection state")
 	r4 := c.Rule("R12.4", "T", "double-checked insert in getConnection")
+	noLockOverwrite(c, c.Rule("R12.9", "T", "no store replaces a whole lock-carrying struct of a live or recycled object"))
 	checkThenActOneSection(c, c.Rule("R12.8", "T", "a map lookup and the pool update it decides lie in one critical section"))
 	r6 := c.Rule("R12.6", "T", "a connection handed back to the pool (remove) is not accessed again by the function that removed it")
 	r5 := c.Rule("R12.5", "T", "no reachable explicit panic in the assembler API (except tabled ones)")
